@@ -30,6 +30,10 @@ func authMode(r *sim.Rng, nStates, perState int, cw, cwBlk *sim.CaseWriter) {
 		}
 		ms := newMsAccount([]int{0, 1, 2}, 2)
 		g.Accounts = append(g.Accounts, &fsm.Account{Address: ms.addr, Amount: 2_000_000_000})
+		// the address the exported constructor NewMultiBLSFromPoints(keys) derives for "the multisig of 0, 1, 2" (threshold 0 = the
+		// proto default): funded like any other account
+		ms0 := newMsAccountT0([]int{0, 1, 2})
+		g.Accounts = append(g.Accounts, &fsm.Account{Address: ms0.addr, Amount: 2_000_000_000})
 		att, vic := newEthActor(), newEthActor()
 		g.Accounts = append(g.Accounts, &fsm.Account{Address: att.addr, Amount: 3_000_000_000}, &fsm.Account{Address: vic.addr, Amount: 3_000_000_000})
 		n, err := sim.NewFNode(g.State(), nil)
@@ -50,7 +54,11 @@ func authMode(r *sim.Rng, nStates, perState int, cw, cwBlk *sim.CaseWriter) {
 				continue
 			}
 			if r.Chance(12) {
-				multisigCase(r, n, ms, cw)
+				if r.Chance(25) {
+					multisigZeroCase(r, n, ms0, cw)
+				} else {
+					multisigCase(r, n, ms, cw)
+				}
 				continue
 			}
 			var base []byte
